@@ -213,7 +213,7 @@ func isFmtCompatVal(v *Val) bool {
 		return true
 	}
 	switch v.K {
-	case "SafeString", "SafeInt", "SafeUint", "SafeFloat", "SafeRune", "safe", "unsafe", "safefmt", "psafefmt", "errsafefmt", "safemsg", "safemsg!",
+	case "SafeString", "SafeInt", "SafeUint", "SafeFloat", "SafeRune", "safe", "unsafe", "safefmt", "psafefmt", "errsafefmt", "safemsg", "safemsg!", "safemsg2",
 		"errsafemsg", "rs", "rb", "sb", "psb", "structB", "pstructB":
 		return false
 	}
